@@ -11,12 +11,23 @@ SPEC = dict(
          "conventions), bounded, state-limited and constraint-limited friction rows, non-participating rows, expansion impulses, "
          "applied-impulse term, tolerances 1e-3..1e-10 and iteration limits 1..1000 (converged and non-converged runs); "
          "PGS solve + solveBilateral compared with the model, PLUS judged by predicates + the exact-rational contract; "
-         "3 corpus cases (PLUS Newton gives up); distinct = distinct input records",
-    partial="PLUSImpulseSolver (Newton / active-set search, sliding intervals) is not modelled: it is decided by the "
-            "implementation-side predicates and the exact-rational acceptance contract (plusAccept_sound) only; PLUS is "
-            "exercised with D = 0 (its Newton matrix ignores D, marked TODO in the source; the only caller passes D = 0) and "
-            "without bounded / state-limited / constraint-limited / unilateral-speed rows (unimplemented TODOs in the source, "
-            "an out-of-range access for bounded rows); UniSpeedRT rows are ignored by PGS as well",
+         "one fixed 2-row PGS record (converged with no enforced row) and a summary record per run: record count agreed with the "
+         "driver, coverage floor (>=35% of n PGS solves judged, >=8% judged for complementarity, >=25% PLUS solves judged), forked "
+         "PLUS bounded-row demonstration; 4 corpus cases; distinct = distinct input records",
+    partial="(i) proved about the executed PGS model (bit-identical tie to PGSImpulseSolver::solve/solveBilateral): unilateral never "
+            "pulls, friction inside the cone (limit mu*|pi_N+piE_N|), bounded within bounds, state-/constraint-limited friction, "
+            "non-participating rows zero - for the final iterate regardless of convergence (pgsSolve_final_inequalities under "
+            "WellFormed); bilateral-only: fixed point <=> [A+D]pi=rhs (bilateral_fixed_point, exact fixed-point form only). "
+            "(ii) predicate-only: 'velocities consistent with the reported condition' for PGS (converged runs, tol<=1e-6: active/"
+            "rolling rows |verr|<=50*tol*sqrt(p) - measured bound, no theorem; released rows separate and sliding friction along "
+            "the slip <=5*tol*sqrt(p)), PGS bilateral residual <=5*tol (theorem bounds only the pre-update residuals), PGS 'opposes "
+            "sliding' (same sliding predicate); every PLUS clause (PLUS's Newton/active-set algorithm is not modelled; judged by "
+            "predicates + the exact-rational contract plusAccept, whose soundness lemma is an unfolding); PLUS cone (Sliding/"
+            "Impending) and opposes-sliding are listed known findings, i.e. currently not enforced for those contacts. "
+            "(iii) not covered: PLUS with D != 0 (its Newton matrix ignores D; the only caller passes 0), PLUS with bounded / state-"
+            "limited / constraint-limited rows (unimplemented in the source; the bounded case is demonstrated once per run in a "
+            "forked child), UniSpeedRT rows (ignored by both solvers), non-converged PGS runs' velocities, PLUS multi-interval "
+            "sliding direction, SemiExplicitEulerTimeStepper's assembly of the problems",
     assumptions=["sqrt is a parameter with its algebraic specification (SqrtSpec); libm trusted",
                  "row sets of different constraints are disjoint and in range (WellFormed) - the caller's obligation"],
 )
